@@ -99,6 +99,15 @@ func loadProgram(repo, harnessDir string) (*Program, error) {
 		return nil, fmt.Errorf("body discovery: %v", err)
 	}
 	overlay[filepath.Join(repo, "zz_verif_gen_bodies.go")] = gen
+	bodies, _ := discoverBodies(repo)
+	fill, err := genFillFile(repo, harnessDir, bodies)
+	if err != nil {
+		return nil, fmt.Errorf("generator generation: %v", err)
+	}
+	overlay[filepath.Join(repo, "zz_verif_gen_fill.go")] = fill
+	if os.Getenv("SYMGO_DUMPGEN") != "" {
+		os.WriteFile(os.Getenv("SYMGO_DUMPGEN"), fill, 0o644)
+	}
 	cfg := &packages.Config{
 		Mode: packages.NeedName | packages.NeedFiles | packages.NeedCompiledGoFiles | packages.NeedImports |
 			packages.NeedDeps | packages.NeedTypes | packages.NeedSyntax | packages.NeedTypesInfo | packages.NeedTypesSizes | packages.NeedModule,
